@@ -101,8 +101,25 @@ func verifyRoot(ld *Loaded, sf *SpecFile, fn *ssa.Function, fs *FuncSpec, prop s
 		v := e.havocVal(st, "arg_"+p.Name(), p.Type())
 		args = append(args, v)
 	}
+	// a closure verified on its own: its captured variables live in arbitrary (non-nil) cells
+	var bindings []*Val
+	fvVals := map[string]*Val{}
+	for _, fv := range fn.FreeVars {
+		cell := e.havocVal(st, "fvcell_"+fv.Name(), fv.Type())
+		e.sc.assume(sx(">", cell.T, "0"), "captured variable cell exists")
+		bindings = append(bindings, cell)
+		if pt := derefType(fv.Type()); pt != nil {
+			t := e.load(st, e.locOfPtr(cell))
+			v := &Val{T: t, Typ: pt, KnownLen: -1}
+			e.assumeWF(st, "true", v)
+			fvVals[fv.Name()] = v
+		}
+	}
 	if fs != nil {
 		env := e.newEnv()
+		for n, v := range fvVals {
+			env.vars[n] = v
+		}
 		for i, p := range fn.Params {
 			env.vars[p.Name()] = args[i]
 			if i < len(fs.ParamNames) {
@@ -116,9 +133,12 @@ func verifyRoot(ld *Loaded, sf *SpecFile, fn *ssa.Function, fs *FuncSpec, prop s
 		e.cover("pre", mergeProps(fs.Safety, allProps(fs)), "true")
 	}
 	entry := st.clone()
-	res, out, outG := e.execFunc(fn, args, nil, st, "true", 0, fs, "")
+	res, out, outG := e.execFunc(fn, args, bindings, st, "true", 0, fs, "")
 	if fs != nil {
 		env := e.newEnv()
+		for n, v := range fvVals {
+			env.vars[n] = v
+		}
 		for i, p := range fn.Params {
 			env.vars[p.Name()] = args[i]
 			if i < len(fs.ParamNames) {
